@@ -55,6 +55,7 @@ impl EdgeTraversal {
     ) -> Result<EdgeTraversal, SearchError> {
         let mut result_state = prev_state.to_vec();
         let mut access_cost = Cost::ZERO;
+        let mut access_edges = None;
 
         // find this traversal in the graph
         let traversal_trajectory = si.directed_graph.edge_triplet(&next_edge_id)?;
@@ -75,6 +76,7 @@ impl EdgeTraversal {
                 .cost_model
                 .access_cost(e1, e2, prev_state, &result_state)?;
             access_cost = access_cost + ac;
+            access_edges = Some((e1, e2));
         }
 
         si.traversal_model.traverse_edge(
@@ -86,7 +88,7 @@ impl EdgeTraversal {
         let (_, edge, _) = traversal_trajectory;
         let total_cost = si
             .cost_model
-            .traversal_cost(edge, prev_state, &result_state)?;
+            .edge_cost(access_edges, edge, prev_state, &result_state)?;
         let traversal_cost = total_cost - access_cost;
 
         let result = EdgeTraversal {
@@ -125,6 +127,7 @@ impl EdgeTraversal {
     ) -> Result<EdgeTraversal, SearchError> {
         let mut result_state = prev_state.to_vec();
         let mut access_cost = Cost::ZERO;
+        let mut access_edges = None;
 
         // find this traversal in the graph
         let traversal_trajectory = si.directed_graph.edge_triplet(&prev_edge_id)?;
@@ -145,6 +148,7 @@ impl EdgeTraversal {
                 .cost_model
                 .access_cost(e1, e2, prev_state, &result_state)?;
             access_cost = access_cost + ac;
+            access_edges = Some((e1, e2));
         }
 
         si.traversal_model.traverse_edge(
@@ -156,7 +160,7 @@ impl EdgeTraversal {
         let (_, edge, _) = traversal_trajectory;
         let total_cost = si
             .cost_model
-            .traversal_cost(edge, prev_state, &result_state)?;
+            .edge_cost(access_edges, edge, prev_state, &result_state)?;
         let traversal_cost = total_cost - access_cost;
 
         let result = EdgeTraversal {
